@@ -45,7 +45,9 @@ ENV_B = {"clock": 2.05e9 + 86400 * 200 + 3600 * 13 + 777, "host": "other-node-17
                      "USER": "builder2", "SOURCE_DATE_EPOCH": "86400", "HOSTNAME": "other-node-17",
                      "SHROUD_DEBUG": "1", "PWD": "/sim/other/cwd"},
          # variables the interpreter itself reads at start-up (real process environment of the fresh run)
-         "interp": {"PYTHONOPTIMIZE": "1", "PYTHONUTF8": "1"}}
+         # (VERIF_PATH_FIRST: a directory put in front of the tree on sys.path, as in
+         # PYTHONPATH=/other/project:/path/to/shroud; it holds only the metadata of *another* installation)
+         "interp": {"PYTHONOPTIMIZE": "1", "PYTHONUTF8": "1", "VERIF_PATH_FIRST": os.path.join(HERE, "envdist")}}
 
 
 def fresh_run(job, env, hashseed, snapshot=None, entry="cli", want_after=False, timeout=180):
